@@ -53,7 +53,8 @@ Verdict(r) ==
       emitOk == r.emit = "ok"
       \* ---------------- property clauses: the two real modes against each other
       vTd == {n \in DOMAIN ev.td : r.inl.td[n] # r.ool.td[n]}
-      vSu == {key \in DOMAIN ev.su : r.inl.su[KeyStr(key)] # r.ool.su[KeyStr(key)]}
+      QSU == {key \in DOMAIN ev.su : Queryable(key)}
+      vSu == {key \in QSU : r.inl.su[KeyStr(key)] # r.ool.su[KeyStr(key)]}
       vEn == {g \in DOMAIN ev.en : r.inl.en[g] # r.ool.en[g]}
       vK  == {c \in AllConsts(ev) : r.inl.k[c] # r.ool.k[c]}
       vFn == {f \in DOMAIN ev.fn : r.inl.fn[f] # r.ool.fn[f]}
@@ -79,6 +80,31 @@ Verdict(r) ==
       oFn(f) == r.ool.fn[f] = OolGlobal(M, W, f)
       iGv(g) == r.inl.gv[g] = Norm(ev, ev.gv[g])
       oGv(g) == r.ool.gv[g] = OolGlobal(M, W, g)
+      \* ---------------- the emitted tables themselves against Encode(env) (harness: module_tables)
+      T == r.tables
+      tabBad ==
+        IF ~Has(T, "types") THEN {}
+        ELSE (IF T.types = W THEN {} ELSE {"types"})
+             \cup (IF Len(T.globals) = Len(M.globals)
+                      /\ \A i \in DOMAIN M.globals : T.globals[i] = <<M.globals[i].name, M.globals[i].w,
+                              IF GetOp(M.globals[i].w) \in {OP_CONSTANT_INT, OP_ENUM} THEN M.globals[i].val ELSE "0">>
+                   THEN {} ELSE {"globals"})
+             \cup (IF Len(T.structs) = Len(M.structs)
+                      /\ \A i \in DOMAIN M.structs :
+                            /\ T.structs[i][1] = M.structs[i].name /\ T.structs[i][2] = M.structs[i].tidx
+                            /\ T.structs[i][3] = M.structs[i].flags
+                            /\ Len(T.structs[i][4]) = Len(M.structs[i].fields)
+                            /\ \A f \in DOMAIN M.structs[i].fields :
+                                  T.structs[i][4][f] = <<M.structs[i].fields[f].name, M.structs[i].fields[f].op,
+                                                         M.structs[i].fields[f].arg, M.structs[i].fields[f].bits>>
+                   THEN {} ELSE {"struct_unions"})
+             \cup (IF Len(T.enums) = Len(M.enums)
+                      /\ \A i \in DOMAIN M.enums : T.enums[i] = <<M.enums[i].name, M.enums[i].tidx, M.enums[i].prim,
+                                                                     M.enums[i].enumerators>>
+                   THEN {} ELSE {"enums"})
+             \cup (IF Len(T.typenames) = Len(M.typenames)
+                      /\ \A i \in DOMAIN M.typenames : T.typenames[i] = <<M.typenames[i].name, M.typenames[i].tidx>>
+                   THEN {} ELSE {"typenames"})
       iLt == LtMatches(r.inl.lt, ListTypes(ev))
       oLt == LtMatches(r.ool.lt, OolListTypes(M))
       \* ---------------- classes of documented divergences, granted only when both modes behave
@@ -112,8 +138,8 @@ Verdict(r) ==
        \* divergences
        {<<"inl", "td", n>> : n \in {n \in DOMAIN ev.td : ~iTd(n)}}
        \cup {<<"ool", "td", n>> : n \in {n \in DOMAIN ev.td : ~oTd(n)}}
-       \cup {<<"inl", "su", KeyStr(key)>> : key \in {key \in DOMAIN ev.su : ~iSu(key)}}
-       \cup {<<"ool", "su", KeyStr(key)>> : key \in {key \in DOMAIN ev.su : ~oSu(key)}}
+       \cup {<<"inl", "su", KeyStr(key)>> : key \in {key \in QSU : ~iSu(key)}}
+       \cup {<<"ool", "su", KeyStr(key)>> : key \in {key \in QSU : ~oSu(key)}}
        \cup {<<"inl", "en", g>> : g \in {g \in DOMAIN ev.en : ~iEn(g)}}
        \cup {<<"ool", "en", g>> : g \in {g \in DOMAIN ev.en : ~oEn(g)}}
        \cup {<<"inl", "k", c>> : c \in {c \in AllConsts(ev) : ~iK(c)}}
@@ -124,8 +150,9 @@ Verdict(r) ==
        \cup {<<"ool", "gv", g>> : g \in {g \in DOMAIN ev.gv : ~oGv(g)}}
        \cup (IF iLt THEN {} ELSE {<<"inl", "lt", "">>}) \cup (IF oLt THEN {} ELSE {<<"ool", "lt", "">>})
        \cup (IF M.ok THEN {} ELSE {<<"ool", "emit", "model predicts failure">>})
+       \cup {<<"ool", "table", x>> : x \in tabBad}
        \* the harness must have asked about exactly the declared names
-       \cup (IF DOMAIN r.inl.td = DOMAIN ev.td /\ DOMAIN r.inl.su = {KeyStr(key) : key \in DOMAIN ev.su}
+       \cup (IF DOMAIN r.inl.td = DOMAIN ev.td /\ DOMAIN r.inl.su = {KeyStr(key) : key \in QSU}
                 /\ DOMAIN r.inl.en = DOMAIN ev.en /\ DOMAIN r.inl.k = AllConsts(ev)
                 /\ DOMAIN r.inl.fn = DOMAIN ev.fn /\ DOMAIN r.inl.gv = DOMAIN ev.gv
              THEN {} ELSE {<<"inl", "domain", "">>})
